@@ -544,7 +544,13 @@ class CallMixin:
         ints = [to_z3(a, T_INT) for a in args]
         lo, hi = (z3.IntVal(0), ints[0]) if len(ints) == 1 else (ints[0], ints[1])
         if len(ints) == 3:
-            raise Unsupported("range with a step")
+            stepc = self.const_int(args[2])
+            if stepc == -1:              # range(a, b, -1) = a, a-1, ..., b+1
+                i = z3.Int(fresh_name('ri'))
+                n = z3.If(lo - hi > 0, lo - hi, 0)
+                return k(st, st.alloc(HList(T_INT, z3.Lambda([i], lo - i), z3.simplify(n))))
+            if stepc != 1:
+                raise Unsupported("range with a step")
         i = z3.Int(fresh_name('ri'))
         n = z3.If(hi - lo > 0, hi - lo, 0)
         return k(st, st.alloc(HList(T_INT, z3.Lambda([i], lo + i), z3.simplify(n))))
@@ -799,6 +805,20 @@ class CallMixin:
     def _unsup_isinst(self, o, names, node):
         raise Unsupported("isinstance(%r, %s) (line %s)" % (o, names, node.lineno))
 
+    def bi_sum(self, args, kws, st, node, k):
+        h = self.hlist(self.iter_to_list(args[0], st), st)
+        if h.et is None:
+            return k(st, VInt(0))
+        if h.et[0] not in ('int', 'bool'):
+            raise Unsupported("sum of %r (line %s)" % (h.et, node.lineno))
+        r = z3.Int(fresh_name('sum'))
+        i = z3.Int(fresh_name('i'))
+        term = z3.Select(h.arr, i) if h.et[0] == 'int' else z3.If(z3.Select(h.arr, i), 1, 0)
+        # T4 (arithmetic): a sum of non-negative terms is non-negative; of no terms it is 0; of one term it is that term
+        st.assume(z3.Implies(z3.ForAll([i], z3.Implies(z3.And(0 <= i, i < h.n), term >= 0)), r >= 0), qf=False)
+        st.assume(z3.Implies(h.n == 0, r == 0))
+        return k(st, VInt(r))
+
     def bi_min(self, args, kws, st, node, k):
         return self.minmax(args, st, node, k, True)
 
@@ -848,6 +868,23 @@ class CallMixin:
         st.assume(z3.ForAll([kk], z3.Implies(z3.Select(D.mem, kk),
                                              z3.And(0 <= wit(kk), wit(kk) < h.n,
                                                     z3.Select(h.arr, wit(kk)) == kk))), qf=False)
+        return k(st, st.alloc(D))
+
+    def bi_dict_fromkeys(self, args, kws, st, node, k):
+        h = self.hlist(self.iter_to_list(args[0], st), st)
+        if h.et is None:
+            return k(st, st.alloc(HDict(None, None, None, None)))
+        v = args[1] if len(args) > 1 else NONE
+        vt = None if isinstance(v, VNone) else type_of_val(v, st)
+        D = fresh_hdict(h.et, vt, 'fromkeys')
+        kk = z3.Const(fresh_name('k'), sort_of(h.et))
+        i = z3.Int(fresh_name('i'))
+        wit = z3.Function(fresh_name('fw'), sort_of(h.et), z3.IntSort())
+        st.assume(z3.ForAll([i], z3.Implies(z3.And(0 <= i, i < h.n), z3.Select(D.mem, z3.Select(h.arr, i)))), qf=False)
+        st.assume(z3.ForAll([kk], z3.Implies(z3.Select(D.mem, kk), z3.And(0 <= wit(kk), wit(kk) < h.n,
+                                                                          z3.Select(h.arr, wit(kk)) == kk))), qf=False)
+        if vt is not None:
+            st.assume(z3.ForAll([kk], z3.Select(D.vals, kk) == to_z3(v, vt)), qf=False)
         return k(st, st.alloc(D))
 
     def bi_dict(self, args, kws, st, node, k):
